@@ -2,6 +2,7 @@
 //!   clh mkfixtures [--force]
 //!   clh gen <stream> --tier quick|thorough --seed N     (case lines on stdout)
 //!   clh exec                                            (op lines on stdin -> result lines)
+mod blind;
 mod bn;
 mod c19;
 mod c20;
@@ -37,7 +38,7 @@ fn backend() -> &'static str {
 fn gen(stream: &str, tier: &str, seed: u64) -> Result<(), String> {
     let mut rng = Rng::new(seed);
     let thorough = tier == "thorough";
-    let gens: Vec<fn(&str, bool, &mut Rng) -> Option<Result<(), String>>> = vec![reg::gen, pres::gen, issuance::gen, nr::gen, bn::gen, c19::gen, c20::gen, ser::gen];
+    let gens: Vec<fn(&str, bool, &mut Rng) -> Option<Result<(), String>>> = vec![reg::gen, pres::gen, issuance::gen, nr::gen, blind::gen, bn::gen, c19::gen, c20::gen, ser::gen];
     for g in gens {
         if let Some(r) = g(stream, thorough, &mut rng) {
             return r;
